@@ -1252,7 +1252,13 @@ def premise_unique(ctx, path, n, rule="V.are_unique", semantic=True):
     sm = ctx.summ(key, [("r", h)], sty)
     dag = sm.ret
     names = ["s%d" % i for i in range(n)]
-    ok, why = comparison_only(dag, set(names))
+    uconsts = set()
+    ok, why = comparison_only(dag, set(names), uconsts)
+    cw_ = ctx.words53()[1:]
+    inside = sorted(c for c in uconsts if isinstance(c, int) and min(cw_) <= c <= max(cw_))
+    if ok and inside:
+        # a constant inside the range of the card words cuts the cards into cells the order patterns do not visit
+        ok, why = False, "a slot is compared with the constant %#x, which lies among the card words" % inside[0]
     if not ok:
         if not semantic:
             # only panic-freedom is asked for: fold the panic sites over card-or-blank hands of every coincidence pattern
@@ -2577,7 +2583,9 @@ def premise_validators(ctx, containers):
             for blank_at in [None] + list(range(n)):
                 env = {"s%d" % i: (0 if i == blank_at else 7 + i) for i in range(n)}
                 bad += 0 if cval(ctx.fold(r, env)) == (0 if blank_at is None else 1) else 1
-            rep.ob("V.contain_blank", short(path), bad == 0 and comparison_only(r, {"s%d" % i for i in range(n)})[0], "contain_blank is not `some slot equals BLANK`", pdb.where(key))
+            cb_consts = set()
+            cb_ok = comparison_only(r, {"s%d" % i for i in range(n)}, cb_consts)[0] and cb_consts <= {0}
+            rep.ob("V.contain_blank", short(path), bad == 0 and cb_ok, "contain_blank is not `some slot equals BLANK`", pdb.where(key))
         ctx.guard("V.is_corrupt." + short(path), corrupt)
         def valid(path=path, n=n, h=h):
             key, sty = ctx.method(path, "is_valid", HV)
